@@ -229,3 +229,20 @@ Theorem C07_code_DE_new_individ_best_1 : forall best pop l r cur F CR ds,
   py_DE_get_new_individ_g py_best_1 best pop l r cur F CR ds = de_new_individ 0 cur best pop F CR l r ds.
 Proof. exact code_DE_new_individ_best_1. Qed.
 Print Assumptions C07_code_DE_new_individ_best_1.
+
+(* ... hence, about the optimizers' own methods: the trial vector DifferentialEvolution / jDE hand to the objective is inside the box for
+   ANY strategy function, F and CR; SHADE's is inside the box whenever the parent is *)
+Theorem C07_src_DE_trial_in_box : forall (mf : list Q -> list Q -> list (list Q) -> Q -> M (list Q)) best pop l r cur F CR ds t ds',
+  box_ok l r -> length cur = length l ->
+  py_DE_get_new_individ_g mf best pop l r cur F CR ds = Some (t, ds') -> in_box l r t.
+Proof. exact src_DE_trial_in_box. Qed.
+Print Assumptions C07_src_DE_trial_in_box.
+
+Theorem C07_src_SHADE_trial_in_box : forall pop pbest archive l r cur F CR ds t ds',
+  valid_draws ds -> (0 < length pop)%nat ->
+  uniform_rows (length cur) pop -> uniform_rows (length cur) archive ->
+  Forall (fun v => (0 <= v < Z.of_nat (length pop))%Z) pbest ->
+  in_box l r cur ->
+  py_SHADE_get_new_individ_g pop pbest archive l r cur F CR ds = Some (t, ds') -> in_box l r t.
+Proof. exact src_SHADE_trial_in_box. Qed.
+Print Assumptions C07_src_SHADE_trial_in_box.
